@@ -1843,22 +1843,28 @@ def continuing_token_is_measured_from_the_last_child_line(prog, rep, R):
     b = prog.body(OLF + "InternalOptimisingLineFormatter::get_token_line_length")
     if not rep.check(b is not None, R, "anchor:get_token_line_length", "get_token_line_length not found"):
         return
+    TD = OLF + "types::TokenDecision"
+    fam = [body for body, _a, _c in family_bodies(prog, b, depth=3) if body.npath.startswith(OLF) and not body.npath.endswith("::find_optimal_solution")]
+    # the functions that look at a decision's child lines: get_last_child_line_len, or any helper that reads TokenDecision.child_solutions
+    readers = {a2[0].npath for a2 in prog.field_accesses(TD, "child_solutions") if a2[3] in ("read", "ref")}
+    child_fns = {x.npath.split("::")[-1] for x in fam if x.npath in readers or x.npath.endswith("::get_last_child_line_len")} | {"get_last_child_line_len"}
     bad, n = [], 0
-    for body, _a, _c in family_bodies(prog, b, depth=2):
-        if not body.npath.startswith(OLF) or body.npath.endswith("::find_optimal_solution"):
-            continue
+    for body in fam:
+        if body.npath in readers:
+            n += 1
         for c in body.calls():
             nm = (c.callee or "").split("::")[-1]
             texts = [canon(body, a2) for a2 in c.args]
-            if any("get_last_child_line_len(" in t for t in texts):
+            child_side = [t for t in texts if any(h + "(" in t for h in child_fns) or "child_solutions" in t]
+            if child_side:
                 n += 1
-                if nm in ("max", "max_by", "max_by_key", "fold", "reduce"):
+                if nm in ("max", "max_by", "max_by_key", "fold", "reduce") and (len(texts) >= 2):
                     bad.append("%s: %s(%s)" % (short(body.npath), nm, ", ".join(t[:40] for t in texts)))
     rep.check(not bad, R, "last-child-line-replaces-the-parent-line",
               "the position of a token that continues behind child lines is computed from the larger of the parent token's line and the last child line (%s) instead of from the last child line: "
               "for limits between the two lengths the token is charged an overflow it does not have and the search picks another layout, although the result of the wider limit fits" % bad[:2],
               instance={"uses_of_the_last_child_line_length": n, "combined_by_maximum": bad[:3]})
-    rep.floor(R, "uses of get_last_child_line_len in the measuring family", n, 1)
+    rep.floor(R, "places of the measuring family that look at a decision's child lines", n, 1)
 
 
 def check_c08(prog, rep, tier, cfg):
